@@ -217,3 +217,70 @@ def armor_writer(nlines):
 
 def scenarios():
     return [crc24(), armor_writer(1), armor_writer(2)]
+
+
+def armor_reader_tail(with_crc):
+    """Armorable.ascii_unarmor after the block grammar (the regular expression is the bounded component's business): base64 decode of
+    the body, decode of the checksum line, and the CRC comparison. Hypothesis: the regex found a block (groupdict given)."""
+    label = 'C10/Armorable.ascii_unarmor[decode and checksum, %s]' % ('checksum line present' if with_crc else 'no checksum line')
+
+    def gen(repo):
+        r = scn.Run(repo, ARM, 'ascii_unarmor', label)
+        ex, st = r.ex, r.st
+        B = E.BYTES
+        TEXT, BODY64, CRC64, MAGIC = z3.Const('TEXT', B), z3.Const('BODY_BASE64', B), z3.Const('CRC_BASE64', B), z3.Const('BLOCK_LABEL', B)
+        CRCOF = z3.Function('CRC24', B, z3.IntSort())
+        UNB64 = z3.Function('UNBASE64', B, B)          # the engine's model of base64.b64decode (total: the binascii.Error -> PGPError path is the bounded component's)
+        r.hook(ARM, 'is_ascii', scn.method_hook(lambda ex, st, o, a: [(st, E.VBool(True))]))
+        groups = E.VDict([(E.VStr(s='magic'), E.VStr(z=MAGIC)), (E.VStr(s='headers'), E.VNone()), (E.VStr(s='hashes'), E.VNone()),
+                          (E.VStr(s='cleartext'), E.VNone()), (E.VStr(s='body'), E.VStr(z=BODY64)),
+                          (E.VStr(s='crc'), E.VStr(z=CRC64) if with_crc else E.VNone())])
+        match = E.VExt('re.Match', ())
+        for nm in ('__armor_regex', '_Armorable__armor_regex'):
+            r.hook(ARM, nm, scn.const(E.VExt('armor-regex', ())))
+        ex.hooks[('ext:armor-regex', 'search')] = lambda ex, st, o, a: [(st, match)]
+        ex.hooks[('ext:re.Match', 'groupdict')] = lambda ex, st, o, a: [(st, E.VDict(list(groups.pairs)))]
+        def crc(ex, st, o, a):
+            st.ghost['crc_arg'] = a[0]
+            v = CRCOF(ex.seq(a[0], st))
+            st.facts.append(z3.And(v >= 0, v < 2 ** 24))
+            return [(st, E.VInt(v))]
+        r.hook(ARM, 'crc24', scn.method_hook(crc))
+
+        def warn(ex, st, o, a):
+            st.ghost['warned'] = st.ghost.get('warned', ()) + (a[0],)
+            return [(st, E.VNone())]
+        ex.hooks[('ext', 'warnings.warn')] = warn
+        for pi, (s, v) in enumerate(r.call(None, [E.VStr(z=TEXT)])):
+            if isinstance(v, E.Raise):
+                r.oblige(s, 'safety(%s)/p%d' % (v.exc.split(':')[0], pi), z3.BoolVal(False), v.where)
+                continue
+            ok = isinstance(v, E.VDict)
+            r.oblige(s, 'returns-the-groups/p%d' % pi, z3.BoolVal(ok))
+            if not ok:
+                continue
+            d = {k.s: x for k, x in v.pairs}
+            body = d.get('body')
+            r.oblige(s, 'body=base64-decode(body text)/p%d' % pi, ex.seq(body, s) == UNB64(BODY64) if isinstance(body, (E.VBytes, E.VBuf)) else z3.BoolVal(False))
+            warned = s.ghost.get('warned', ())
+            if with_crc:
+                stated = E.B2I(UNB64(CRC64))
+                c = d.get('crc')
+                r.oblige(s, 'crc=number-on-the-checksum-line/p%d' % pi, ex.as_int(c) == stated if isinstance(c, E.VInt) else z3.BoolVal(False))
+                mismatch = CRCOF(UNB64(BODY64)) != stated
+                r.oblige(s, 'warns-Incorrect-crc24-iff-the-stated-checksum-differs-from-the-crc-of-the-decoded-body/p%d' % pi,
+                         z3.BoolVal(len(warned) == 1 and isinstance(warned[0], E.VStr) and warned[0].s == 'Incorrect crc24') == mismatch
+                         if len(warned) <= 1 else z3.BoolVal(False))
+                ca = s.ghost.get('crc_arg')
+                r.oblige(s, 'crc-computed-over-the-decoded-body/p%d' % pi, ex.seq(ca, s) == UNB64(BODY64) if ca is not None else z3.BoolVal(False))
+            else:
+                r.oblige(s, 'no-checksum-line:no-warning,crc-is-None/p%d' % pi, z3.BoolVal(len(warned) == 0 and isinstance(d.get('crc'), E.VNone)))
+        return r.result()
+    return Scenario(label, ARM + '.ascii_unarmor', gen, props=('C10',))
+
+
+_base_scn_r = scenarios
+
+
+def scenarios():
+    return _base_scn_r() + [armor_reader_tail(True), armor_reader_tail(False)]
